@@ -268,7 +268,20 @@ def run(ctx):
     ctx.sample({"text": texts[0]})
     # nested subscripts: the lexer fuses `]` `]`, the bracket matcher takes them apart again (model and code alike)
     fused = ["int a[b[0]];", "int x = m[i[0]];", "void f(int p = a[b[1]]);", "int t[b[c[1]]];", "Tmpl<a[b[0]]> v;", "int a[b[0]]]; int z;",
-             "struct S { int m[n[0]]; int k = v[w[1]] + 1; };", "int q[[maybe_unused]] = 1;", "[[nodiscard]] int f(int a[b[0]]);", "int y = g(v[w[0]], u[t[0]]);"]
+             "struct S { int m[n[0]]; int k = v[w[1]] + 1; };", "int q[[maybe_unused]] = 1;", "[[nodiscard]] int f(int a[b[0]]);", "int y = g(v[w[0]], u[t[0]]);",
+             # … also with a less-than still open inside or between the two subscripts (fix 25456e4)
+             "int v[a[b < c]];", "int v[a < b[0]];", "int x = m[i[j < 2]];", "int x = m[i < j[k < 2]];", "[[attr([ x [ a < b ]] > y)]] int z;",
+             "struct S { int m[n < o[0]]; };", "void f(int p = a[b < c[1]]);"]
+    # accepted, and the value is the written tokens (a rejected header would only show as agreement between model and code)
+    ffails = []
+    for src, want in (("int v[a[b < c]];", "a[b<c]"), ("int v[a < b[0]];", "a<b[0]"), ("int u[a[b[0]]];", "a[b[0]]")):
+        try:
+            got = parse_string(src).namespace.variables[0].type.size.format()
+            if got.replace(" ", "") != want:
+                ffails.append({"input": src, "diff": "array size %r, written %r" % (got, want)})
+        except CxxParseError as e:
+            ffails.append({"input": src, "diff": "valid nested subscript rejected: %s" % e})
+    ctx.oracle("nested_subscripts", 3, ffails)
     pcommon.parse_corr(ctx, "parse[values]", fused + texts[: ctx.budget(300, 8000)] + [t for t in pcommon.corpus()][: ctx.budget(60, 300)], proj=pcommon.proj_values)
 
 
